@@ -38,7 +38,9 @@ def make_interp(chk, fi, zde=False, **kw):
             return [("raise", ZDE), ("value", ("binop", op, l, r))]
         return None
 
-    return Interp(prog, fi, attr_hook=attr_hook, binop_hook=binop_hook, inline=lambda f, ct: f.cls is cls, **kw)
+    pkg = cls.module.name.rpartition(".")[0]
+    # own methods, and the private module-level helpers of the composite package (one shared share formula, ...)
+    return Interp(prog, fi, attr_hook=attr_hook, binop_hook=binop_hook, inline=lambda f, ct: f.cls is cls or (f.cls is None and not f.is_async and f.module.name.startswith(pkg)), **kw)
 
 
 _PROG = {}
